@@ -69,7 +69,9 @@ def raw_to_rgb(raw_color):
 
 @noneable
 def logical_to_rgb(logical_color):
-    h = logical_color[0] / 360.0
+    # Any angle is a hue: -90 is 270. colorsys expects 0 <= h < 1 and does not
+    # wrap a negative one.
+    h = (logical_color[0] % 360.0) / 360.0
     s = logical_color[1] / 100.0
     v = logical_color[2] / 100.0
     r, g, b = colorsys.hsv_to_rgb(h, s, v)
